@@ -14,6 +14,7 @@ import (
 	"crypto/sha256"
 	"encoding/hex"
 	"encoding/json"
+	"errors"
 	"fmt"
 	"math/big"
 	"os"
@@ -32,6 +33,7 @@ import (
 	"github.com/meshplus/bitxhub/internal/ledger"
 	"github.com/meshplus/bitxhub/internal/repo"
 	ethledger "github.com/meshplus/eth-kit/ledger"
+	"github.com/meshplus/bitxhub/verifharness/clx"
 	"github.com/meshplus/bitxhub/verifharness/hx"
 )
 
@@ -45,6 +47,12 @@ type op struct {
 }
 
 type history struct {
+	// full=true: the whole ledger.Ledger (state ledger + chain ledger + blockfile, opened by ledger.New);
+	// "commit" seals a block on the current chain head and calls PersistBlockData, "rollback" calls
+	// Ledger.Rollback, "reopen" closes all three stores and runs ledger.New again; every step additionally
+	// reports the chain half ("chain": head height, persisted head height, blocks in the blockfile, head hash,
+	// persisted head hash, then per height 1..16 the hash of GetBlock or 0), hashes interned per history
+	Full  bool     `json:"full"`
 	Addrs []string `json:"addrs"`
 	Keys  []string `json:"keys"`
 	Codes []string `json:"codes"`
@@ -86,9 +94,95 @@ type world struct {
 	keys   [][]byte
 	lastAc map[string]ethledger.IAccount
 	lastRt *types.Hash
+	full   bool
+	st     *clx.Stores
+	tbl    *clx.Tables
+	hid    map[string]uint64
+	stepNo int
+	dead   bool
+}
+
+const fullKH = 16
+
+func (w *world) close() {
+	if w.dead {
+		return
+	}
+	if w.full {
+		if w.st != nil {
+			w.st.Close()
+		}
+		return
+	}
+	w.ldb.Close()
+}
+
+func (w *world) hashID(h *types.Hash) uint64 {
+	if h == nil || h.RawHash == ([types.HashLength]byte{}) {
+		return 0 // no block: nil in memory after a rollback to 0, the zero hash when read back
+	}
+	k := h.String()
+	if id, ok := w.hid[k]; ok {
+		return id
+	}
+	id := uint64(len(w.hid) + 1)
+	w.hid[k] = id
+	return id
+}
+
+// chainObs: what the chain half of the ledger answers right now
+func (w *world) chainObs() (res []uint64) {
+	defer func() {
+		if recover() != nil {
+			res = []uint64{^uint64(0) >> 12}
+		}
+	}()
+	cl := w.st.CL
+	m := cl.GetChainMeta()
+	sm := cl.LoadChainMeta()
+	blocks, _ := w.st.BF.Blocks()
+	res = []uint64{m.Height, sm.Height, blocks, w.hashID(m.BlockHash), w.hashID(sm.BlockHash)}
+	for h := uint64(1); h <= fullKH; h++ {
+		b, err := cl.GetBlock(h, false)
+		if err != nil || b == nil {
+			res = append(res, 0)
+		} else {
+			res = append(res, w.hashID(b.BlockHash))
+		}
+	}
+	return res
+}
+
+func fullErrEnum(err error) string {
+	switch {
+	case err == nil:
+		return "ok"
+	case errors.Is(err, ledger.ErrorRollbackToHigherNumber):
+		return "higher"
+	case errors.Is(err, ledger.ErrorRollbackTooMuch):
+		return "toomuch"
+	case errors.Is(err, ledger.ErrorRollbackWithoutJournal):
+		return "nojournal"
+	case strings.Contains(err.Error(), "cannot get block journal"):
+		return "nojournal"
+	}
+	return "err"
 }
 
 func (w *world) open() error {
+	if w.full {
+		st, err := clx.OpenFull(w.dir, "", nil, nil)
+		if err != nil {
+			return err
+		}
+		sl, ok := st.Ledger.StateLedger.(*ledger.SimpleLedger)
+		if !ok {
+			st.Close()
+			return fmt.Errorf("state ledger is not a SimpleLedger")
+		}
+		w.st, w.ldb, w.lg = st, st.State, sl
+		return nil
+	}
 	ldb, err := leveldb.New(filepath.Join(w.dir, "ledger"))
 	if err != nil {
 		return err
@@ -290,6 +384,15 @@ func (w *world) step(o op) (out obs) {
 			panic("bad balance")
 		}
 		w.lg.SetBalance(a, z)
+	case "suicide":
+		// EVM SELFDESTRUCT as the EVM state accessor issues it (SuisideEVM -> Suiside).  Suiside dereferences the
+		// account without creating it; for an address the ledger does not know (no SELFDESTRUCT can come from
+		// there) the driver performs the only effect Suiside has as coded, SetBalance(0)
+		if w.lg.GetAccount(a) == nil {
+			w.lg.SetBalance(a, new(big.Int))
+		} else {
+			w.lg.Suiside(a)
+		}
 	case "addbal":
 		z, ok := new(big.Int).SetString(o.Z, 10)
 		if !ok {
@@ -330,15 +433,29 @@ func (w *world) step(o op) (out obs) {
 			// nothing was ever flushed: Commit would dereference a nil root
 			return obs{"r": "nojournal"}
 		}
+		if w.full {
+			meta := w.st.CL.GetChainMeta()
+			blocks, _ := w.st.BF.Blocks()
+			if o.N != meta.Height+1 || blocks != meta.Height {
+				// PersistBlockData panics in its goroutines on an out-of-order block: not attempted
+				return obs{"r": "err"}
+			}
+			blk, rcs, im, _ := clx.Seal(w.tbl, w.stepNo, o.N, meta.BlockHash, w.lastRt, []int{w.stepNo}, -1, nil, 0, 0)
+			w.st.Ledger.PersistBlockData(&ledger.BlockData{Block: blk, Receipts: rcs, Accounts: w.lastAc, InterchainMeta: im})
+			return obs{"r": "ok"}
+		}
 		err := w.lg.Commit(o.N, w.lastAc, w.lastRt)
 		return obs{"r": errEnum(err)}
 	case "rollback":
+		if w.full {
+			return obs{"r": fullErrEnum(w.st.Ledger.Rollback(o.N))}
+		}
 		err := w.lg.RollbackState(o.N)
 		return obs{"r": errEnum(err)}
 	case "version":
 		return obs{"n": w.lg.Version()}
 	case "reopen":
-		w.ldb.Close()
+		w.close()
 		w.lastAc, w.lastRt = nil, nil
 		if err := w.open(); err != nil {
 			return obs{"r": "err"}
@@ -377,7 +494,7 @@ func runHistory(h history) (interface{}, error) {
 		return nil, err
 	}
 	defer os.RemoveAll(dir)
-	w := &world{dir: dir}
+	w := &world{dir: dir, full: h.Full, tbl: clx.NewTables(), hid: map[string]uint64{}}
 	for _, s := range h.Addrs {
 		w.addrs = append(w.addrs, types.NewAddress(unhex(s)))
 	}
@@ -387,7 +504,7 @@ func runHistory(h history) (interface{}, error) {
 	if err := w.open(); err != nil {
 		return nil, err
 	}
-	defer func() { w.ldb.Close() }()
+	defer func() { w.close() }()
 	strs := make([]string, 0, len(w.addrs))
 	for _, a := range w.addrs {
 		strs = append(strs, hex.EncodeToString([]byte(a.String())))
@@ -397,6 +514,10 @@ func runHistory(h history) (interface{}, error) {
 		kec = append(kec, []string{c, hex.EncodeToString(crypto.Keccak256Hash(unhex(c)).Bytes())})
 	}
 	out := make([]obs, 0, len(h.Ops))
+	var chain0 []uint64
+	if w.full {
+		chain0 = w.chainObs()
+	}
 	hung := false
 	for _, o := range h.Ops {
 		if hung {
@@ -406,7 +527,14 @@ func runHistory(h history) (interface{}, error) {
 		// a revert that has to re-create an account object deadlocks on the changer's lock:
 		// every step runs under a watchdog; after a hang the ledger instance is abandoned
 		done := make(chan obs, 1)
-		go func(o op) { done <- w.step(o) }(o)
+		w.stepNo++
+		go func(o op) {
+			r := w.step(o)
+			if w.full && r["r"] != "badop" {
+				r["chain"] = w.chainObs()
+			}
+			done <- r
+		}(o)
 		select {
 		case r := <-done:
 			out = append(out, r)
@@ -420,6 +548,10 @@ func runHistory(h history) (interface{}, error) {
 	}
 	if hung {
 		w.ldb = nopCloser{}
+		w.dead = true
+	}
+	if w.full {
+		return obs{"strs": strs, "kec": kec, "obs": out, "chain0": chain0}, nil
 	}
 	return obs{"strs": strs, "kec": kec, "obs": out}, nil
 }
